@@ -18,6 +18,7 @@ def dispatch (line : String) : String :=
     else if cmd = "req" then reqLine toks
     else if cmd = "storm" then stormLine toks
     else if cmd = "abort" then abortLine toks
+    else if cmd = "timing" then timingLine toks
     else if cmd = "multi" then multiLine toks
     else if cmd = "cfg" then cfgLine toks
     else if cmd = "loop" then loopLine toks
